@@ -372,8 +372,19 @@ class StreamableHTTPTransport(Transport):
 
             # Read the full response if not streaming
             if hasattr(response, "text"):
-                # Response is already fully loaded
+                # Response is already fully loaded. An event stream is UTF-8: a
+                # body that is not must not be "repaired" (undecodable bytes
+                # replaced) and handed on as if the server had said that - it is
+                # a malformed answer
                 text = response.text
+                content = getattr(response, "content", None)
+                if isinstance(content, (bytes, bytearray)):
+                    try:
+                        content.decode("utf-8")
+                    except UnicodeDecodeError as e:
+                        self._unroutable_parts += 1
+                        logger.error(f"SSE answer is not valid UTF-8: {e}")
+                        return
                 await self._process_sse_text(text, message_id)
                 return
 
